@@ -21,7 +21,7 @@ import (
 
 const userNS = "http://jabber.org/protocol/muc#user"
 
-var joinPlans = []string{"self-presence", "error-presence", "other-occupant-then-self", "foreign-room-then-self", "nothing", "self-presence-then-error", "error-then-self-presence"}
+var joinPlans = []string{"self-presence", "error-presence", "other-occupant-then-self", "foreign-room-then-self", "nothing", "self-presence-then-error", "error-then-self-presence", "foreign-room-undecodable-then-self"}
 var leavePlans = []string{"unavailable", "error-reply", "nothing", "no-leave"}
 var rejoinPlans = []string{"self-presence", "error-presence", "nothing"}
 var roomsJoinPlans = []string{"self", "first-room-occupant-then-self", "kicked-from-first-room-then-self", "error"}
@@ -192,6 +192,11 @@ func run(c *nd.Ctx, phase string) nd.Result {
 					env.PeerWrite(fmt.Sprintf(`<presence from='%s' type='error'%s><error type='auth'><forbidden xmlns='urn:ietf:params:xml:ns:xmpp-stanzas'/></error></presence>`, room.String(), idAttr))
 				case "other-occupant-then-self":
 					env.PeerWrite(selfPresence("", "room@conf.example.net/other", "") + selfPresence("", room.String(), ""))
+				case "foreign-room-undecodable-then-self":
+					// a presence from a room that was never joined whose payload the
+					// library cannot decode (unknown role, non-numeric status code): it is
+					// none of our business and must be ignored like any other
+					env.PeerWrite(`<presence from='elsewhere@conf.example.net/me' to='me@example.net/res'><x xmlns='` + userNS + `'><item affiliation='member' role='observer'/><status code='abc'/></x></presence>` + selfPresence("", room.String(), ""))
 				case "foreign-room-then-self":
 					env.PeerWrite(selfPresence("", "elsewhere@conf.example.net/me", "") + selfPresence("", room.String(), ""))
 				case "self-presence-then-error":
@@ -382,7 +387,7 @@ func run(c *nd.Ctx, phase string) nd.Result {
 		return res
 	}
 	// Join
-	selfSent := jp == "self-presence" || jp == "other-occupant-then-self" || jp == "foreign-room-then-self" || jp == "self-presence-then-error" || jp == "error-then-self-presence"
+	selfSent := jp == "self-presence" || jp == "other-occupant-then-self" || jp == "foreign-room-then-self" || jp == "foreign-room-undecodable-then-self" || jp == "self-presence-then-error" || jp == "error-then-self-presence"
 	var se stanza.Error
 	switch {
 	case joinErr == nil:
@@ -402,7 +407,7 @@ func run(c *nd.Ctx, phase string) nd.Result {
 	}
 	if joinErr != nil && !joinCancelled {
 		switch jp {
-		case "self-presence", "other-occupant-then-self", "foreign-room-then-self":
+		case "self-presence", "other-occupant-then-self", "foreign-room-then-self", "foreign-room-undecodable-then-self":
 			return fail("join:fails-although-self-presence-arrived", "Join returned %v, its context was not cancelled", joinErr)
 		}
 	}
